@@ -17,6 +17,7 @@ Record route_cfg := {
   c_x_match : bytes;           (* the key looked up in the argument table: x-match *)
   c_all : bytes; c_any : bytes;
   c_default_all : bool;        (* no x-match argument => MatchAll *)
+  c_xmatch_bytes : bool;       (* NewBinding converts an x-match of dynamic type []byte to string first (F52/F68) *)
   c_cmp : cmp_mode;            (* MatchHeader: reflect.DeepEqual(value, val) or value == val (F11) *)
   c_topic_wordwise : bool;     (* MatchTopic uses matchTopicWords (F05 repaired), not a regexp *)
   (* server/queueMethods.go: is the default exchange refused? *)
@@ -51,7 +52,7 @@ Definition cfg_set (c : route_cfg) (early_direct : bool) (cmp : cmp_mode) (unbin
      c_early_direct := early_direct; c_early_fanout := c_early_fanout c;
      c_early_topic := c_early_topic c; c_early_headers := c_early_headers c;
      c_x_prefix := c_x_prefix c; c_x_match := c_x_match c; c_all := c_all c; c_any := c_any c;
-     c_default_all := c_default_all c; c_cmp := cmp; c_topic_wordwise := c_topic_wordwise c;
+     c_default_all := c_default_all c; c_xmatch_bytes := c_xmatch_bytes c; c_cmp := cmp; c_topic_wordwise := c_topic_wordwise c;
      c_bind_refuses_default := c_bind_refuses_default c; c_unbind_refuses_default := unbind_refuses;
      c_default_binding_on_declare := c_default_binding_on_declare c |}.
 
